@@ -617,7 +617,8 @@ def check_dtypes(prog, rep, f, pub, call, entry, c):
                             'arithmetic in the raster\'s own dtype merges 100000 with 100001 (rtol) and overflows for int8 '
                             '-128 / unsigned differences; integer rasters need exact == (wrong for pairs %s)' % wrong[:4])
                 else:
-                    wrong = [(a, b) for a, b, want in ((5, 5, True), (0, 0, True), (1, 2, False), (2, 1, False), (-3, 3, False))
+                    wrong = [(a, b) for a, b, want in ((5, 5, True), (0, 0, True), (1, 2, False), (2, 1, False), (-3, 3, False), (-1, -1, True),
+                                                  (-250, -250, True), (-1, -2, False))
                              if holds(a, b, flag) != want]
                     rep.add('Q2', f, entry, 'matching on the float path (%s false) (line %d)' % (fl[0].name, line), line,
                             not wrong, 'a value must match itself and clearly different values must not match (wrong for %s)' % wrong)
